@@ -47,6 +47,8 @@ class C15(InvProp):
         return [dict(c) for c in CLAUSES_ABS] + [dict(c) for c in CLAUSES] + super().corpus()
 
     def cases(self, tier, seed):
+        for j in range(30 if tier == "quick" else 600):
+            yield GI2.numeric_names(Rng(seed, "C15:num", j))
         N = 250 if tier == "quick" else 6000
         for i in range(N):
             r = Rng(seed, "C15", i)
